@@ -259,6 +259,12 @@ def gen_traffic(rng, i, tier, *, nclients=None, retries=(0, 1, -1), n_msgs=None,
     m = n_msgs or rng.choice([3, 6, 12, 25, 60])
     big = big or (200000 if tier == "thorough" else 40000)
     burst_t = None
+    # offered load stays within what the sender can put on the wire in ~2 s (one datagram per tick):
+    # an overloaded sender is an application problem, not a fault the properties quantify over
+    frag = limits(mtu)["frag"]
+    budget = {"S%d" % c: 2.0 * frag / max(cfg["server"]["interval"], 1 / 60) for c in range(n)}
+    for c in range(n):
+        budget["c%d" % c] = 2.0 * frag / max(cfg["clients"][c]["dt"], 1 / 60)
     for j in range(m):
         if burst_t is not None and rng.random() < 0.6:
             t = burst_t                      # several messages in the same frame
@@ -271,7 +277,12 @@ def gen_traffic(rng, i, tier, *, nclients=None, retries=(0, 1, -1), n_msgs=None,
               "cb": rng.random() < cb_p}
         c = rng.randrange(n)
         op["c"] = c
-        if server_sends and rng.random() < 0.4:
+        is_server = server_sends and rng.random() < 0.4
+        who = ("S%d" if is_server else "c%d") % c
+        if length > budget[who]:
+            length = op["len"] = rng.randrange(0, limits(mtu)["cap1"] + 1) if budget[who] > limits(mtu)["cap1"] else rng.randrange(0, 64)
+        budget[who] -= length * (3 if retry == 1 else 1)
+        if is_server:
             op["op"] = "ssend"
             op["api"] = "send_guaranteed" if retry == -1 and rng.random() < 0.5 else "send"
         else:
@@ -310,42 +321,61 @@ class FragExpiryProbe(Monitor):
     """Notices when a receiver throws away an *incomplete* fragment context (FragmentReceiver expiry).
 
     Used to attribute 'guaranteed message never delivered' / 'True callback without delivery' to that
-    specific history, so that the known finding about it does not hide other causes."""
+    specific history, so that the known finding about it does not hide other causes.  The probe keeps
+    its own record of when each context last made progress (stored a new fragment), so that
+    'purged while idle longer than 1+0.5*count s' (known finding KF-FRAG-PURGE) and 'purged although it
+    made progress more recently than that' (the defect repaired by bd9dabe) are told apart without
+    trusting the repository's own timestamp."""
 
     def attach(self, world):
         self.w = world
-        self.purged = []        # (t, receiving conn name, frag_id, fragments held, frag_count, idle_s, age_s)
+        self.purged = []        # (t, receiving conn name, frag_id, fragments held, frag_count, idle_s, how)
+        self.progress = {}      # (conn name, frag_id) -> virtual time of the last newly stored fragment
         CB = conn_mod.ConnectionBase
         orig = CB._recvAppFragment
         mon = self
 
+        def filled(v):
+            return frozenset(i for i, f in enumerate(v.fragments, 1) if f is not None)
+
         def _recvAppFragment(conn, msgseq, fragment):
-            before = {k: (sum(1 for f in v.fragments if f is not None), v.frag_count, v.ctime)
-                      for k, v in conn.received_fragments.items()}
-            try:
-                fid = struct.unpack(">H", fragment[:2])[0] if len(fragment) >= 2 else None
-            except Exception:       # noqa
-                fid = None
-            now = conn.clock()
+            cn = world.conn_name(conn)
+            before = {k: (filled(v), v.frag_count) for k, v in conn.received_fragments.items()}
+            fid = idx = cnt = None
+            if len(fragment) >= 6:
+                fid, idx, cnt = struct.unpack(">HHH", fragment[:6])
+            now = world.k.now
             r = orig(conn, msgseq, fragment)
-            for k, (held, cnt, ctime) in before.items():
-                if k not in conn.received_fragments and k != fid:
-                    mon.purged.append((world.k.now, world.conn_name(conn), k, held, cnt, now - ctime, "other"))
-                    world.probe("incomplete_fragment_context_purged")
-            if fid is not None and fid in before and fid not in conn.received_fragments:
-                held, cnt, ctime = before[fid]
-                if held + 1 < cnt:      # it was not completed by this fragment: it expired
-                    mon.purged.append((world.k.now, world.conn_name(conn), fid, held + 1, cnt, now - ctime, "self"))
-                    world.probe("incomplete_fragment_context_purged")
-            elif fid is not None and fid not in before and fid not in conn.received_fragments:
-                cnt = struct.unpack(">H", fragment[4:6])[0] if len(fragment) >= 6 else 0
-                if cnt > 1:
-                    mon.purged.append((world.k.now, world.conn_name(conn), fid, 1, cnt, 0.0, "self-new"))
+            after = conn.received_fragments
+            if fid is not None:
+                f0, c0 = before.get(fid, (frozenset(), cnt))
+                f1 = f0 | ({idx} if 1 <= idx <= (c0 or 0) else set())
+                if fid in after:
+                    if len(filled(after[fid])) > len(f0):
+                        mon.progress[(cn, fid)] = now
+                else:
+                    complete = len(f1) >= (c0 or 0)
+                    if not complete:
+                        # context gone although fragments are still missing: purged right after this fragment
+                        if len(f1) > len(f0):
+                            idle = 0.0
+                        else:
+                            last = mon.progress.get((cn, fid))
+                            idle = now - last if last is not None else 1e9
+                        mon._purge(world, cn, fid, len(f1), c0, idle, "own")
+                    mon.progress.pop((cn, fid), None)
+            for k, (f, c) in before.items():
+                if k != fid and k not in after:
+                    last = mon.progress.pop((cn, k), None)
+                    mon._purge(world, cn, k, len(f), c, now - last if last is not None else 1e9, "other")
             return r
         world.seams._set(CB, "_recvAppFragment", _recvAppFragment)
 
-    def purged_on(self, conn_name):
-        return [p for p in self.purged if p[1] == conn_name]
+    def _purge(self, world, cn, fid, h, c, idle, by):
+        max_age = 1.0 + 0.5 * (c or 0)
+        how = "idle" if idle > max_age * 0.99 else "while-progressing"
+        self.purged.append((world.k.now, cn, fid, h, c, idle, how + ":by-" + by))
+        world.probe("incomplete_fragment_context_purged_" + how)
 
     def cause(self, w, rec, rx_conn_name):
         """Attribute a lost fragmented message to the purge of *its own* reassembly context, or not."""
@@ -355,6 +385,6 @@ class FragExpiryProbe(Monitor):
         mine = [p for p in self.purged if p[1] == rx_conn_name and p[2] == fid and p[0] >= rec["t"]]
         if not mine:
             return "cause=unknown", []
-        how = "by-other-message" if all(p[6] == "other" for p in mine) else "by-own-fragment"
+        how = "idle" if all(p[6].startswith("idle") for p in mine) else "while-progressing"
         return "cause=receiver-purged-incomplete-fragment-context:" + how, \
             [(round(p[0], 3), p[2], p[3], p[4], round(p[5], 3), p[6]) for p in mine[:4]]
